@@ -239,6 +239,24 @@ impl SymbolMap {
         id
     }
 
+    /// A def written inside a multiclass. It is a pattern for the records a `defm` creates (named
+    /// after the `defm`), not a record of its own: it is outlined like a def but cannot be referred
+    /// to by its bare name.
+    pub fn add_multiclass_def(&mut self, record: Record) -> RecordId {
+        let define_loc = record.define_loc;
+        #[cfg(feature = "verif")]
+        let name = record.name.clone();
+        let id = self.record_list.alloc(record);
+        #[cfg(feature = "verif")]
+        crate::verif_hooks::define(id.into(), &name, define_loc, false);
+        self.file_to_symbol_list
+            .entry(define_loc.file)
+            .or_default()
+            .push(id.into());
+        self.add_to_pos_to_symbol_map(define_loc, id);
+        id
+    }
+
     pub fn add_anonymous_def(&mut self, record: Record) -> RecordId {
         assert!(record.kind == RecordKind::Def);
         #[cfg(feature = "verif")]
